@@ -1635,6 +1635,8 @@ class Interp:
 
     def call_function(self, fi: FuncInfo, args, kwargs, looked_up_on=None, force_inline=False) -> V:
         key = self.contract_key(fi)
+        if not force_inline and fi.qualname == "Signer.sign_envelope" and getattr(self, "sign_envelope_call_site", None) is not None and key != self.verifying:
+            return self.sign_envelope_call_site(self, self.contracts.get(key), fi, args, kwargs)
         if not force_inline and key in self.contracts and (key != self.verifying or key in self.active_calls) and not (self.contracts[key].callers_inline and key not in self.active_calls) and self._in_scope(self.contracts[key]):
             from . import modular
             c = self.contracts[key]
